@@ -48,7 +48,9 @@ def minor_snap(s):
               for sa in s.solution]
     d = getattr(s, "diplotype", None)
     mk = major_key(s.major_solution)
+    gene = s.major_solution.cn_solution.gene
     return {"copies": copies, "score": float(s.score), "major": [list(mk[0]), list(mk[1]), list(mk[2])],
+            "major_cfgs": [gene.alleles[a].cn_config if a in gene.alleles else "?" for a in mk[0]],
             "major_score": float(s.major_solution.score), "cn_score": float(s.major_solution.cn_solution.score),
             "diplotype": [list(x) for x in d] if d is not None else None,
             "major_diplotype": s.get_major_diplotype() if d is not None else None,
@@ -173,3 +175,88 @@ def run_genotype(gene_db, sam_path, profile_name, out_name="out.aldy", capture_s
         sols = [minor_snap(s) for s in objs]
     return {"events": rec.events, "result": sols, "result_objs": objs, "error": err, "error_type": etype,
             "output": out.getvalue(), "sample": holder.get("sample")}
+
+
+# --------------------------------------------------------------------------- trace rows (PipelineTrace.tla)
+U = 10000
+
+
+def _fix(x):
+    return int(round(x * U))
+
+
+def _mkey(s):
+    return "|".join([",".join(s["alleles"]), ",".join(s["novel"]), ",".join(s["cn"])])
+
+
+def _nkey(s):
+    return ";".join(f"{c['major']}/{c['minor']}/+{','.join(c['added'])}/-{','.join(c['missing'])}" for c in s["copies"]) + "@" + "|".join(
+        ",".join(x) for x in s["major"])
+
+
+def trace_rows(run, tid, gap):
+    """ndjson rows of spec/trace/PipelineTrace.tla for one recorded genotype() run (structural)."""
+    ev = run["events"]
+    rows = [{"tid": tid, "k": "begin", "gapU": _fix(gap)}]
+    cn_ev = [e for e in ev if e["k"] == "cn"]
+    maj_ev = [e for e in ev if e["k"] == "major"]
+    min_ev = [e for e in ev if e["k"] == "minor"]
+    solve_ev = [e for e in ev if e["k"] == "minor_solve"]
+    stage = "input"
+    if cn_ev and cn_ev[0]["returned"]:
+        sols = cn_ev[0]["sols"]
+        order = []
+        for m in maj_ev:
+            k = ",".join(m["cn"]["struct"])
+            if k not in order:
+                order.append(k)
+        by = {",".join(s["struct"]): s for s in sols}
+        seq = [by[k] for k in order if k in by] + [s for k, s in by.items() if k not in order]
+        rows.append({"tid": tid, "k": "cn", "sols": [{"key": ",".join(s["struct"]), "score": _fix(s["score"])} for s in seq]})
+        stage = "cn" if not sols else "major"
+    elif cn_ev:
+        stage = "cn"
+    majS = []
+    for m in maj_ev:
+        if not m["returned"]:
+            continue
+        rows.append({"tid": tid, "k": "major", "cnkey": ",".join(m["cn"]["struct"]),
+                     "sols": [{"key": _mkey(s), "raw": _fix(s["score"])} for s in m["sols"]]})
+        majS += [_mkey(s) for s in m["sols"]]
+    if min_ev:
+        me = min_ev[0]
+        used = set()
+        passed = []
+        for s in me["majors"]:
+            k = _mkey(s)
+            idx = next((i + 1 for i, kk in enumerate(majS) if kk == k and i not in used), 0)
+            if idx:
+                used.add(idx - 1)
+            passed.append({"idx": idx, "score": _fix(s["score"])})
+        rows.append({"tid": tid, "k": "selmajor", "passed": passed})
+        stage = "minor"
+        if me["returned"]:
+            raw = {}
+            for se in solve_ev:
+                for s in se["sols"]:
+                    raw.setdefault(_nkey(s), _fix(s["score"]))
+            sols = []
+            for s in me["sols"]:
+                mk = "|".join(",".join(x) for x in s["major"])
+                sols.append({"key": _nkey(s), "maj": next((i + 1 for i, kk in enumerate(majS) if kk == mk), 0),
+                             "raw": raw.get(_nkey(s), -1), "carried": _fix(s["score"])})
+            rows.append({"tid": tid, "k": "minor", "sols": sols})
+            mkeys = [s["key"] for s in sols]
+    rep = []
+    if run["result"] is not None and min_ev and min_ev[0]["returned"]:
+        for s in run["result"]:
+            k = _nkey(s)
+            idx = next((i + 1 for i, kk in enumerate(mkeys) if kk == k), 0)
+            dip = sorted(i for h in (s["diplotype"] or []) for i in h if i >= 0)
+            rep.append({"idx": idx, "final": _fix(s["score"]), "chain": {
+                "copy_majors": sorted(c["major"] for c in s["copies"]), "major_alleles": sorted(s["major"][0]),
+                "allele_cfgs": sorted(s["major_cfgs"]),
+                "cn_struct": sorted(s["major"][2]), "dip_sorted": dip, "ncopies": len(s["copies"])}})
+    rows.append({"tid": tid, "k": "report", "err": run["error"], "errtype": run["error_type"], "stage": stage,
+                 "has_result": run["result"] is not None, "sols": rep})
+    return rows
